@@ -143,3 +143,111 @@ theorem loop_mono_le (P : Prog) (n : Nat) (c : Cfg) (h : loopDone P n c = true) 
     · obtain ⟨i1, i2⟩ := ih (by omega)
       obtain ⟨j1, j2⟩ := loop_mono P m c i1
       exact ⟨j1, j2.trans i2⟩
+
+/-! ### the fuel hypothesis with slack -/
+
+/-- mirrors `tickDone` with fuel `n` instead of `fuel0` -/
+def tickDoneN (P : Prog) (n : Nat) (c : Cfg) : Bool :=
+  match c.pc with
+  | .notStarted => loopDone P n c
+  | .awaitPaused pf =>
+      if c.pfs[pf]? = some true then
+        match c.paused with
+        | some pf' => if c.pfs[pf']? = some false then true else stepDoneK P (loopDone P n) c
+        | none => stepDoneK P (loopDone P n) c
+      else true
+  | .inUser b => if b.awaits = 0 then loopDone P n (finishUser c b.out) else true
+  | .awaitWaiting wf =>
+      match c.wfs[wf]? with
+      | some .pending => true
+      | some w =>
+          let fn := match c.st with | .waiting fn .. => fn | _ => 0
+          loopDone P n (wake c fn wf w)
+      | none => true
+  | _ => true
+
+/-- no tick of the history comes within `fuel0 - n` iterations of exhausting the fuel of the model's step loop -/
+def fuelOkN (P : Prog) (n : Nat) : Cfg → List Ev → Bool
+  | _, [] => true
+  | c, e :: es => (match e with | .tick => tickDoneN P n c | _ => true) && fuelOkN P n (step P c e).1 es
+
+theorem tickDoneN_fuel0 (P : Prog) (c : Cfg) : tickDoneN P fuel0 c = tickDone P c := rfl
+
+theorem stepDoneK_le (P : Prog) (n m : Nat) (hnm : n ≤ m) (c : Cfg) (h : stepDoneK P (loopDone P n) c = true) :
+    stepDoneK P (loopDone P m) c = true :=
+  (stepK_mono P id id (loopDone P n) (loopDone P m) (fun e he => ⟨(loop_mono_le P n e he m hnm).1, rfl⟩) c h).1
+
+theorem tickDoneN_le (P : Prog) (n m : Nat) (hnm : n ≤ m) (c : Cfg) (h : tickDoneN P n c = true) : tickDoneN P m c = true := by
+  unfold tickDoneN at h ⊢
+  cases hpc : c.pc with
+  | notStarted =>
+    rw [hpc] at h
+    exact (loop_mono_le P n c h m hnm).1
+  | awaitPaused pf =>
+    rw [hpc] at h
+    dsimp only at h ⊢
+    by_cases hpf : c.pfs[pf]? = some true
+    · rw [if_pos hpf] at h ⊢
+      cases hpa : c.paused with
+      | none =>
+        rw [hpa] at h
+        exact stepDoneK_le P n m hnm c h
+      | some pf' =>
+        rw [hpa] at h
+        dsimp only at h ⊢
+        by_cases hf : c.pfs[pf']? = some false
+        · rw [if_pos hf]
+        · rw [if_neg hf] at h ⊢
+          exact stepDoneK_le P n m hnm c h
+    · rw [if_neg hpf]
+  | inUser b =>
+    rw [hpc] at h
+    dsimp only at h ⊢
+    by_cases ha : b.awaits = 0
+    · rw [if_pos ha] at h ⊢
+      exact (loop_mono_le P n _ h m hnm).1
+    · rw [if_neg ha]
+  | awaitWaiting wf =>
+    rw [hpc] at h
+    dsimp only at h ⊢
+    cases hw : c.wfs[wf]? with
+    | none => rfl
+    | some w =>
+      rw [hw] at h
+      cases w with
+      | pending => rfl
+      | result v => exact (loop_mono_le P n _ h m hnm).1
+      | interrupted k => exact (loop_mono_le P n _ h m hnm).1
+      | failed e => exact (loop_mono_le P n _ h m hnm).1
+  | done => rfl
+  | crashed e => rfl
+
+theorem fuelOkN_le (P : Prog) (n : Nat) (hn : n ≤ fuel0) : ∀ (evs : List Ev) (c : Cfg), fuelOkN P n c evs = true →
+    fuelOk P c evs = true := by
+  intro evs
+  induction evs with
+  | nil => intro c _; rfl
+  | cons e es ih =>
+    intro c h
+    simp only [fuelOkN, Bool.and_eq_true] at h
+    simp only [fuelOk, Bool.and_eq_true]
+    refine ⟨?_, ih _ h.2⟩
+    cases e with
+    | tick => rw [← tickDoneN_fuel0]; exact tickDoneN_le P n fuel0 hn c h.1
+    | _ => rfl
+
+theorem fuelOkN_append (P : Prog) (n : Nat) : ∀ (xs ys : List Ev) (c : Cfg),
+    fuelOkN P n c (xs ++ ys) = (fuelOkN P n c xs && fuelOkN P n (run P c xs) ys) := by
+  intro xs
+  induction xs with
+  | nil => intro ys c; simp [fuelOkN, run]
+  | cons x rest ih =>
+    intro ys c
+    simp only [List.cons_append, fuelOkN, ih, Bool.and_assoc]
+    rfl
+
+theorem tickDoneN_wait_done (P : Prog) (n : Nat) (c : Cfg) (fn wf : Nat) (wk aw) (w : WF) (h : c.pc = .awaitWaiting wf)
+    (hst : c.st = .waiting fn wf wk aw) (hw : c.wfs[wf]? = some w) (hp : w ≠ .pending) :
+    tickDoneN P n c = loopDone P n (wake c fn wf w) := by
+  unfold tickDoneN; rw [h]; dsimp only; rw [hw, hst]
+  cases w <;> first | rfl | exact absurd rfl hp
